@@ -37,6 +37,68 @@ def kinds_of_test(test: ast.AST, var: str) -> Optional[Set[str]]:
     return None
 
 
+def decide_kind(test: ast.AST, var: str, K: str) -> Optional[bool]:
+    """Truth of a test when `var` is known to be of kind K (None: the test is not about the kind of var)."""
+    if isinstance(test, ast.UnaryOp) and isinstance(test.op, ast.Not):
+        d = decide_kind(test.operand, var, K)
+        return None if d is None else not d
+    if isinstance(test, ast.BoolOp):
+        ds = [decide_kind(v, var, K) for v in test.values]
+        if isinstance(test.op, ast.Or):
+            if any(d is True for d in ds):
+                return True
+            return False if all(d is False for d in ds) else None
+        if any(d is False for d in ds):
+            return False
+        return True if all(d is True for d in ds) else None
+    if isinstance(test, ast.Call) and dotted(test.func) == "isinstance" and len(test.args) == 2 and norm(test.args[0]) == var:
+        cl = test.args[1]
+        names = [norm(e) for e in cl.elts] if isinstance(cl, ast.Tuple) else [norm(cl)]
+        if all(n in COVERS for n in names):
+            return any(K in COVERS[n] for n in names)
+        return None
+    if isinstance(test, ast.Compare) and len(test.ops) == 1 and isinstance(test.ops[0], (ast.Is, ast.Eq, ast.IsNot, ast.NotEq)) \
+            and norm(test.left) == f"type({var})" and norm(test.comparators[0]) in COVERS:
+        r = K in COVERS[norm(test.comparators[0])]
+        return r if isinstance(test.ops[0], (ast.Is, ast.Eq)) else not r
+    if isinstance(test, ast.Compare) and len(test.ops) == 1 and isinstance(test.ops[0], (ast.In, ast.NotIn)) and norm(test.left) == f"type({var})" \
+            and isinstance(test.comparators[0], (ast.Tuple, ast.List, ast.Set)) and all(norm(e) in COVERS for e in test.comparators[0].elts):
+        r = any(K in COVERS[norm(e)] for e in test.comparators[0].elts)
+        return r if isinstance(test.ops[0], ast.In) else not r
+    return None
+
+
+def kind_outcome(stmts: List[ast.stmt], var: str, K: str, decided: bool = True):
+    """('returns' | 'raises' | 'falls', statements executed under kind-decided conditions) for a child of kind K."""
+    executed: List[ast.stmt] = []
+    for s in stmts:
+        if isinstance(s, ast.If):
+            d = decide_kind(s.test, var, K)
+            if d is not None:
+                res, ex = kind_outcome(s.body if d else s.orelse, var, K, decided)
+                executed += ex
+                if res != "falls":
+                    return res, executed
+            else:
+                r1, e1 = kind_outcome(s.body, var, K, False)
+                r2, e2 = kind_outcome(s.orelse, var, K, False)
+                executed.append(s)
+                if r1 != "falls" and r2 != "falls":
+                    return "returns", executed
+        elif isinstance(s, ast.Return):
+            executed.append(s)
+            return "returns", executed
+        elif isinstance(s, ast.Raise):
+            return ("raises" if decided else "returns"), executed
+        elif isinstance(s, ast.Continue):
+            return "falls", executed
+        elif isinstance(s, (ast.For, ast.While, ast.With, ast.Try)):
+            executed.append(s)
+        else:
+            executed.append(s)
+    return "falls", executed
+
+
 def dispatch_chain(first: ast.If, var: str):
     arms: List[Tuple[Set[str], List[ast.stmt], ast.AST]] = []
     cur = first
@@ -99,55 +161,39 @@ def check(ctx: Ctx) -> None:
     n_sites = 0
     for mod, qual, var, emits in sites:
         fi = model.fi(mod, qual)
-        ds = find_dispatches(fi.node, var)
-        if not ds:
+        if not any(kinds_of_test(n.test, var) is not None or decide_kind(n.test, var, "Series") is not None for n in walk_ordered(fi.node) if isinstance(n, ast.If)):
             raise AnalysisError(f"{qual}: no kind dispatch on `{var}` found")
-        # merge consecutive top-level chains (early `if isinstance(x, Element): return` followed by another chain)
-        covered: Set[str] = set()
-        last_else: List[ast.stmt] = []
-        elem_arms: List[List[ast.stmt]] = []
-        first = ds[0][0]
-        for n, (arms, els) in ds:
-            for k, body, test in arms:
-                covered |= k
-                if "Element" in k:
-                    elem_arms.append(body)
-            last_else = els
         n_sites += 1
-        ctx.instance("R20.1", f"{qual}: covers {sorted(covered)}; else {'raises' if last_else and always_exits(last_else) else ('handles' if last_else else 'absent')}")
-        # an else that narrows to Element (isinstance check + raise) covers Element
-        else_handles_element = False
-        if last_else:
-            guard = [s for s in last_else if isinstance(s, ast.If) and norm(s.test) == f"not isinstance({var}, Element)" and always_exits(s.body)]
-            if guard:
-                else_handles_element = True
-                covered |= {"Element"}
-                elem_arms.append(last_else)
-        else_is_handler = bool(last_else) and not else_handles_element and not always_exits(last_else)
-        if else_is_handler:
-            # a non-raising else handles every kind not tested above (children are Element | Connection: a closed sum)
-            rest = KINDS - covered
-            covered |= rest
-            if "Element" in rest:
-                elem_arms.append(last_else)
-        missing = KINDS - covered
+        # abstract interpretation over the kind of `var`: for each kind the isinstance tests are decided, everything else
+        # is explored on both sides; a raise reached under decided tests only is a rejection of that kind
+        # scope: the body of the loop that binds `var` (a child being visited), else the function body (var is a parameter)
+        loops_v = [n for n in walk_ordered(fi.node) if isinstance(n, ast.For) and any(isinstance(x, ast.Name) and x.id == var for x in ast.walk(n.target))
+                   and any(isinstance(m, ast.If) and decide_kind(m.test, var, "Series") is not None for m in walk_ordered(n))]
+        scope = loops_v[0].body if loops_v else fi.node.body
+        outcomes = {K: kind_outcome(scope, var, K) for K in sorted(KINDS)}
+        valued = (not loops_v) and any(isinstance(n, ast.Return) and n.value is not None for n in walk_ordered(fi.node))
+        ctx.instance("R20.1", f"{qual}: " + ", ".join(f"{K}→{outcomes[K][0]}" for K in sorted(KINDS)))
+        missing = {K for K, (res, ex) in outcomes.items() if res == "raises" or (res == "falls" and valued)}
+        first = next(n for n in walk_ordered(fi.node) if isinstance(n, ast.If))
         if missing:
             ctx.violation("R20.1", f"{qual}:missing-{'+'.join(sorted(missing))}", mod, first,
                           f"{qual} does not handle children of kind {sorted(missing)}: they would be skipped or rejected in this export")
         else:
             ctx.ok()
-        if else_is_handler and not any(isinstance(x, (ast.Call, ast.Assign, ast.AugAssign)) for s_ in last_else for x in ast.walk(s_)):
-            ctx.violation("R20.1", f"{qual}:silent-else", mod, first, f"{qual}: the fall-through of the kind dispatch does nothing (children of the remaining kinds are skipped)")
-        # exactly one emit per element arm
+        silent = [K for K, (res, ex) in outcomes.items() if res in ("falls", "returns") and (not valued or loops_v)
+                  and not any(isinstance(x, (ast.Call, ast.Assign, ast.AugAssign)) for s_ in ex for x in ast.walk(s_))]
+        if silent:
+            ctx.violation("R20.1", f"{qual}:silent-else", mod, first, f"{qual}: children of kind {silent} fall through the kind dispatch without anything being done (they are skipped)")
+        # exactly one emit per element
         if emits:
-            for body in elem_arms or [[]]:
-                cnt = sum(1 for s in body for c in calls_in(s) if dotted(c.func) in emits)
-                ctx.instance("R20.1", f"{qual}: element arm emits {cnt}×{sorted(emits)}")
-                if cnt == 1:
-                    ctx.ok()
-                else:
-                    ctx.violation("R20.1", f"{qual}:element-emit", mod, first,
-                                  f"{qual}: the element arm calls {sorted(emits)} {cnt} times; each element must be emitted exactly once")
+            body = outcomes["Element"][1]
+            cnt = sum(1 for s_ in body for c in calls_in(s_) if dotted(c.func) in emits)
+            ctx.instance("R20.1", f"{qual}: an element child emits {cnt}×{sorted(emits)}")
+            if cnt == 1:
+                ctx.ok()
+            else:
+                ctx.violation("R20.1", f"{qual}:element-emit", mod, first,
+                              f"{qual}: for an element child {sorted(emits)} is called {cnt} times; each element must be emitted exactly once")
     if n_sites < 11:
         raise AnalysisError(f"R20.1: only {n_sites} traversal sites analysed (floor 11)")
     # recursion is structural: every recursive call passes the loop child
